@@ -251,9 +251,12 @@ impl ZerokitMerkleTree for PmTree {
     }
 
     fn update_next(&mut self, leaf: FrOf<Self::Hasher>) -> Result<()> {
+        let index = self.tree.leaves_set();
         self.tree
             .update_next(leaf)
-            .map_err(|e| Report::msg(e.to_string()))
+            .map_err(|e| Report::msg(e.to_string()))?;
+        self.cached_leaves_indices[index] = 1;
+        Ok(())
     }
 
     fn delete(&mut self, index: usize) -> Result<()> {
